@@ -14,7 +14,7 @@ import hashlib
 import random
 from typing import Any, Dict, List, Optional, Tuple
 
-from gen.formulas import features as formula_features
+from gen.formulas import features_with_grammar
 from gen.formulas import gen_formula, uses
 from gen.grammars import make_grammar
 from oracles.grammar import (
@@ -550,7 +550,7 @@ def _run(plan, world: World, monitors: Monitors, record):
         h["solutions"].append(info.get("str"))
         record["outcomes"].append(["solve", i, "tree", info.get("str"), info.get("quantifier_matches", 0)])
         for p in problems:
-            p.update({"property": "C01", "op_index": op_index, "solver": i, "features": formula_features(sc["formula"])})
+            p.update({"property": "C01", "op_index": op_index, "solver": i, "features": features_with_grammar(sc["formula"], sc["grammar"])})
             viol.append(p)
 
 
